@@ -676,6 +676,11 @@ func c19(r *rng, tier string, o *out) {
 		line = "extracth" + strings.TrimPrefix(line, "extract")
 		c07emit(o, "C19", line, true, "extract-http")
 		line = strings.Replace(genExtractCaseK(r, true), " f ", " h ", 1)
+		if c%2 == 1 { // far-apart ranges under a generous overfetch: which gaps are bridged depends on the budget to the byte
+			f := strings.Fields(line)
+			f[4] = fmt.Sprint(math.Float32bits([]float32{0.2, 0.33, 0.5, 0.9, 1, 2.5}[r.intn(6)]))
+			line = strings.Join(f, " ")
+		}
 		c07emit(o, "C19", "extracth"+strings.TrimPrefix(line, "extract"), true, "extract-http-scattered-ranges")
 	}
 }
